@@ -27,7 +27,7 @@ type c10Case struct {
 	Affinity   string `json:"affinity"` // none one two foreign notin preferred
 	NodeSel    bool   `json:"nodeSelector"`
 	Toleration bool   `json:"toleration"`
-	NodeAnnot  string `json:"node_annotation"` // absent good malformed ghost
+	NodeAnnot  string `json:"node_annotation"` // absent good malformed ghost neighbour
 	Setting    string `json:"setting"`         // none main-requests main-limits main-both side error-status
 	Affin      bool   `json:"affinity_assignment_mode"`
 }
@@ -39,7 +39,7 @@ func c10Cases() []c10Case {
 			for _, af := range []string{"none", "one", "two", "foreign", "notin", "preferred"} {
 				for _, ns := range []bool{false, true} {
 					for _, tol := range []bool{false, true} {
-						for _, na := range []string{"absent", "good", "malformed", "ghost"} {
+						for _, na := range []string{"absent", "good", "malformed", "ghost", "neighbour"} {
 							for _, st := range []string{"none", "main-requests", "main-limits", "main-both", "side", "error-status"} {
 								for _, mode := range []bool{false, true} {
 									out = append(out, c10Case{nc, tr, af, ns, tol, na, st, mode})
@@ -105,6 +105,9 @@ func c10Node(c c10Case, annotVal string) *corev1.Node {
 		n.Annotations[c10AnnotKey+"main"] = "{not json"
 	case "ghost":
 		n.Annotations[c10AnnotKey+"ghost"] = annotVal
+	case "neighbour":
+		// the override annotation of ANOTHER ExtendedDaemonSet of the namespace whose name extends this one's: ns/foo.bar
+		n.Annotations[c10AnnotKey+"bar.main"] = annotVal
 	}
 	return n
 }
@@ -345,6 +348,24 @@ func c10Eval(t *testing.T, run *h.Run, c c10Case) {
 			run.Count("perturbations", 1)
 			if !deleted {
 				viol("C10/outdated: pod not recognised as outdated after a change of "+name, "")
+			}
+		}
+		if c.NodeAnnot == "neighbour" {
+			// a change of an annotation that belongs to another ExtendedDaemonSet (ns/foo.bar) is not a change of this
+			// one's inputs: the pod must NOT be replaced
+			l3 := w.NewLive(base, w.Config{AffinityMode: c.Affin})
+			in3 := l3.API.Inner()
+			n := &corev1.Node{}
+			_ = in3.Get(ctx, types.NamespacedName{Name: "n1"}, n)
+			n.Annotations[c10AnnotKey+"bar.main"] = `{"requests":{"cpu":"250m"}}`
+			_ = in3.Update(ctx, n)
+			l3.API.ResetLog()
+			l3.ReconcileERS("ns", rs.Name)
+			run.Count("perturbations", 1)
+			for _, call := range l3.API.Log {
+				if call.Kind == "Pod" && call.Verb == "delete" {
+					viol("C10/stable: pod replaced after a change of an override annotation that belongs to another ExtendedDaemonSet (ns/foo.bar)", call.Name)
+				}
 			}
 		}
 		perturb("the template", func(in client.Client) string {
